@@ -30,6 +30,32 @@ from foolscap.slicers.dict import DictConstraint
 from foolscap.slicers.set import SetConstraint
 from foolscap.tokens import Violation, BananaError
 
+# ------------------------------------------------------------------ a family of RemoteInterfaces (with inheritance)
+_family = {}
+FAMILY_PARENTS = {"RIVBase": ["RemoteInterface"], "RIVDerived": ["RIVBase", "RemoteInterface"],
+                  "RIVSub": ["RIVDerived", "RIVBase", "RemoteInterface"], "RIVOther": ["RemoteInterface"], "RemoteInterface": []}
+
+
+def family():
+    """RIVBase <- RIVDerived <- RIVSub, and the unrelated RIVOther (created once per process)"""
+    if not _family:
+        meta = RemoteInterface.__class__
+        _family["RemoteInterface"] = RemoteInterface
+        _family["RIVBase"] = meta("RIVBase", (RemoteInterface,), {"__remote_name__": "RIVBase"})
+        _family["RIVDerived"] = meta("RIVDerived", (_family["RIVBase"],), {"__remote_name__": "RIVDerived"})
+        _family["RIVSub"] = meta("RIVSub", (_family["RIVDerived"],), {"__remote_name__": "RIVSub"})
+        _family["RIVOther"] = meta("RIVOther", (RemoteInterface,), {"__remote_name__": "RIVOther"})
+    return _family
+
+
+def referenceable_claiming(name):
+    """a Referenceable that implements the named interface of the family (None: no RemoteInterface at all)"""
+    if name is None:
+        return Referenceable()
+    cls = implementer(family()[name])(type("RefTo" + name, (Referenceable,), {}))
+    return cls()
+
+
 # ------------------------------------------------------------------ constraints
 PYSHORT = {"int": int, "str": str, "bytes": bytes, "bool": bool, "float": float, "none": None}
 
@@ -63,6 +89,10 @@ def build(cs):
         return schema.ChoiceOf(*[build(x) for x in cs[1]])
     if k == "opt":
         return schema.Optional(build(cs[1]), None)
+    if k == "remote":
+        # the public shorthand: the RemoteInterface itself is the constraint (adapted to RemoteInterfaceConstraint)
+        from foolscap.remoteinterface import RemoteInterfaceConstraint
+        return RemoteInterfaceConstraint(None) if cs[1] is None else family()[cs[1]]
     if k == "py":
         return PYSHORT[cs[1]]
     if k == "pytuple":
@@ -107,6 +137,11 @@ def to_ctr(c):
         return "(CChoice [%s])" % "; ".join(to_ctr(x) for x in c.alternatives)
     if t is C.Optional:
         return "(COpt %s)" % to_ctr(c.constraint)
+    from foolscap.remoteinterface import RemoteInterfaceConstraint
+    if t is RemoteInterfaceConstraint:
+        if c.interface is None:
+            return "(CRemote None)"
+        return "(CRemote (Some %s))" % coq_zlist(list(c.interface.__remote_name__.encode()))
     raise ValueError("constraint class outside the model: %r" % (t,))
 
 
@@ -188,6 +223,8 @@ def canon(o, _stack=()):
         if isinstance(o, set):
             return ["s", sorted((canon(x, st) for x in o), key=repr)]
         return ["d", sorted(([canon(a, st), canon(b, st)] for a, b in o.items()), key=repr)]
+    if hasattr(o, "tracker") and hasattr(o.tracker, "interfaceName"):
+        return ["R", o.tracker.interfaceName]            # a RemoteReference: the interface name its sender claimed
     return ["other", type(o).__name__]
 
 
@@ -247,6 +284,8 @@ def to_obj(vs):
         return "(ODict [%s] [%s])" % ("; ".join(to_obj(a) for a, b in vs[1]), "; ".join(to_obj(b) for a, b in vs[1]))
     if k == "P":
         return "(OPending %d)" % vs[1]
+    if k == "R":
+        return "(ORemote %s)" % coq_zlist(list((vs[1] or "").encode()))
     raise ValueError(vs)
 
 
@@ -254,7 +293,7 @@ def to_obj(vs):
 TB = {"INT": tokens.INT, "NEG": tokens.NEG, "LONGINT": tokens.LONGINT, "LONGNEG": tokens.LONGNEG,
       "FLOAT": tokens.FLOAT, "STRING": tokens.STRING, "VOCAB": tokens.VOCAB, "OPEN": tokens.OPEN, "CLOSE": tokens.CLOSE}
 OTYPES = {"list": "OtList", "tuple": "OtTuple", "set": "OtSet", "immutable-set": "OtFset", "dict": "OtDict",
-          "unicode": "OtUnicode", "boolean": "OtBool", "none": "OtNone"}
+          "unicode": "OtUnicode", "boolean": "OtBool", "none": "OtNone", "my-reference": "OtMyRef"}
 
 
 def hdr(n):
@@ -553,14 +592,30 @@ def is_remote_failure(r):
     return isinstance(r, CopiedFailure)
 
 
-def answer_trial(resp_cs, ws, refs_first=None, vocab=0):
+def answer_trial(resp_cs, ws, refs_first=None, vocab=0, via="interface"):
     """callRemote('m') under result constraint resp_cs, the target's real answer is suppressed and a hand-built
-    `answer` sequence carrying wire tree ws is delivered instead.  -> (outcome, alive)"""
-    w = World([], [], build(resp_cs), vocab=vocab)
+    `answer` sequence carrying wire tree ws is delivered instead.  The result constraint "in force for that call" is set
+    through one of the public ways: the RemoteInterface both ends share ("interface"), callRemote(_resultConstraint=...)
+    on a schema-less reference ("kwarg"), the same overriding an interface that says Any ("kwarg-over"), or
+    callRemote(_methodConstraint=RemoteMethodSchema(_response=...)) ("method").  -> (outcome, World)"""
+    c = build(resp_cs)
+    extra = {}
+    if via == "interface":
+        w = World([], [], c, vocab=vocab)
+    elif via == "kwarg":
+        w = World([], [], schema.Any(), vocab=vocab, shared_iface=False)
+        extra["_resultConstraint"] = c
+    elif via == "kwarg-over":
+        w = World([], [], schema.Any(), vocab=vocab)
+        extra["_resultConstraint"] = c
+    else:
+        w = World([], [], schema.Any(), vocab=vocab)
+        extra["_methodConstraint"] = RemoteMethodSchema(_response=c) if c is not None else RemoteMethodSchema(_response=Nothing())
+    w.declared = IConstraint_of(c)
     real_write = w.tb.transport.write
     w.tb.transport.write = lambda data: None
     res = []
-    w.rr.callRemote("m").addBoth(res.append)
+    w.rr.callRemote("m", **extra).addBoth(res.append)
     E.turn()
     w.tb.transport.write = real_write
     enc = Enc()
@@ -572,6 +627,11 @@ def answer_trial(resp_cs, ws, refs_first=None, vocab=0):
     w.cb.dataReceived(enc.bytes())
     E.turn()
     return res, w
+
+
+def IConstraint_of(c):
+    from foolscap.constraint import IConstraint
+    return IConstraint(c)
 
 
 def call_trial(argnames, cons, pos_ws, kw_ws, numargs=None, prelude=None, vocab=0):
@@ -910,6 +970,15 @@ def py_satisfies(cs, o):
         return (cs[2] is None or len(o) <= cs[2]) and all(py_satisfies(cs[1], x) for x in o)
     if k == "choice":
         return any(py_satisfies(c, o) for c in cs[1])
+    if k == "remote":
+        # "a RemoteReference that claims to be associated with a remote Referenceable that implements the given
+        # RemoteInterface": the claimed interface is the declared one or one of its sub-interfaces
+        if not (hasattr(o, "tracker") and hasattr(o.tracker, "interfaceName")):
+            return False
+        if cs[1] is None:
+            return True
+        claim = o.tracker.interfaceName
+        return claim in FAMILY_PARENTS and (claim == cs[1] or cs[1] in FAMILY_PARENTS[claim])
     raise ValueError(cs)
 
 
@@ -1019,7 +1088,7 @@ def py_taste(cs, tb, size):
 
 
 _OPENTYPES = {"text": ["unicode"], "bool": ["boolean"], "none": ["none"], "list": ["list"], "tuple": ["tuple"], "dict": ["dict"],
-              "set": ["set", "immutable-set"], "int": [], "number": [], "bytes": []}
+              "set": ["set", "immutable-set"], "int": [], "number": [], "bytes": [], "remote": ["my-reference", "their-reference"]}
 _CHILD = {"list": "list", "tuple": "tuple", "dict": "dict", "set": "set", "immutable-set": "set", "unicode": "text", "boolean": "bool"}
 
 
@@ -1048,6 +1117,8 @@ def py_recv(cs, ws):
         return "viol"
     if ot == "none":
         return "ok" if not kids else "abort"
+    if ot == "my-reference":
+        return "ok" if kids and kids[0][0] == "wi" and all(x[0] == "ws" for x in kids[1:3]) and len(kids) <= 3 else "abort"
     if cs is not None and cs[0] != "any" and cs[0] != _CHILD[ot]:
         return "abort"                                   # setConstraint's isinstance assertion
     free = cs is None or cs[0] == "any"
